@@ -635,6 +635,12 @@ def corr_cases(draw):
             vals[0] = vals[0] + 1.0 if vals[0] < 999.0 else vals[0] - 1.0
     aff = [draw(st.sampled_from([0.5, 2.0, 3.0, 0.1, 1.0, 7.0])), draw(st.sampled_from([0.0, 1.0, -3.25, 100.0])),
            draw(st.sampled_from([0.5, 2.0, 3.0, 0.1, 1.0, 7.0])), draw(st.sampled_from([0.0, 1.0, -3.25, 100.0]))]
+    # a change of units: pure rescaling by many orders of magnitude (no offset, so the relative
+    # spread of the data is untouched) of one variable or of both
+    units = draw(st.sampled_from([None, None, (1e-6, 1.0), (1.0, 1e-6), (2.0 ** -30, 2.0 ** -30), (1e5, 1e-8),
+                                  (2.0 ** 20, 1.0)]))
+    if units is not None:
+        aff = [units[0], 0.0, units[1], 0.0]
     return {"x": xs, "y": ys, "aff": aff, "xmode": mode}
 
 
